@@ -186,7 +186,7 @@ def execute(w: World, u: dict) -> dict:
     try:
         if what[0] == 'msg':
             try:
-                msg = Message.unpack(what[1], what[2], w.neg)
+                msg = Message.unpack(what[1], memoryview(what[2]), w.neg)
             except Notify as n:
                 # the message does not decode: refused, no event to look at (C03/C08 decide whether refusing is right)
                 return {'u': u, 'decoded': False, '_exc': f'Notify({n.code},{n.subcode})', '_recs': [], '_shape': ''}
